@@ -40,16 +40,16 @@ example : canBeIgnored (.err (.lastAttemptError (.dbError .invalid)) : Res Nat) 
 
 /-! ### 2. basic facts about `step` / `run` -/
 
-theorem run_nil (s : St α τ) : run s [] = s := rfl
-theorem run_cons (s : St α τ) (e : Event α) (es : List (Event α)) : run s (e :: es) = run (step s e) es := rfl
-theorem run_append (s : St α τ) (es fs : List (Event α)) : run s (es ++ fs) = run (run s es) fs := by
+private theorem run_nil (s : St α τ) : run s [] = s := rfl
+private theorem run_cons (s : St α τ) (e : Event α) (es : List (Event α)) : run s (e :: es) = run (step s e) es := rfl
+private theorem run_append (s : St α τ) (es fs : List (Event α)) : run s (es ++ fs) = run (run s es) fs := by
   simp [run, List.foldl_append]
 
 /-- After the return nothing happens any more. -/
-theorem step_of_returned {s : St α τ} {r : Res α} (h : s.returned = some r) (e : Event α) : step s e = s := by
+private theorem step_of_returned {s : St α τ} {r : Res α} (h : s.returned = some r) (e : Event α) : step s e = s := by
   simp [step, h]
 
-theorem run_of_returned {s : St α τ} {r : Res α} (h : s.returned = some r) (evs : List (Event α)) :
+private theorem run_of_returned {s : St α τ} {r : Res α} (h : s.returned = some r) (evs : List (Event α)) :
     run s evs = s := by
   induction evs with
   | nil => rfl
@@ -74,10 +74,10 @@ structure Inv (m : Nat) (plan0 : List τ) (s : St α τ) : Prop where
   attempts_handed : ∀ p ∈ s.attempts, p ∈ s.handed ∧ p.1 ∈ s.running
   attempts_nodup : (s.attempts.map (·.1)).Nodup
 
-theorem inv_initSpec (m : Nat) (plan : List τ) : Inv m plan (initSpec m plan : St α τ) := by
+private theorem inv_initSpec (m : Nat) (plan : List τ) : Inv m plan (initSpec m plan : St α τ) := by
   constructor <;> simp [initSpec] <;> omega
 
-theorem inv_initSingle (m : Nat) (plan : List τ) : Inv m plan (initSingle plan : St α τ) := by
+private theorem inv_initSingle (m : Nat) (plan : List τ) : Inv m plan (initSingle plan : St α τ) := by
   constructor <;> simp [initSingle]
 
 theorem inv_init (idem : Bool) (pol : Option Nat) (plan : List τ) :
